@@ -70,7 +70,7 @@ func Project(cfg *Cfg, ssn *framework.Session) (M, error) {
 				}
 			}
 			pods[string(uid)] = M{"st": pi.Status.String(), "node": pi.NodeName, "groups": groupsOf(pi.GPUGroups),
-				"virt": b2i(pi.IsVirtualStatus)}
+				"virt": b2i(pi.IsVirtualStatus), "acc": milli(pi.AcceptedResource.GetGpusQuota())}
 		}
 		idx := M{}
 		for _, s := range statuses {
